@@ -123,7 +123,7 @@ func randDoc(r *rand.Rand) []member {
 	av := "pod-security.admission.config.k8s.io/" + pick(r, []string{"v1", "v1", "v1beta1", "v1alpha1"})
 	switch x := r.Intn(100); {
 	case x < 6:
-		av = pick(r, []string{"pod-security.admission.config.k8s.io/v2", "pod-security.admission.config.k8s.io/V1", "pod-security.admission.config.k8s.io", "v1", "apiserver.config.k8s.io/v1", "pod-security.admission.config.k8s.io/v1 "})
+		av = pick(r, []string{"pod-security.admission.config.k8s.io/__internal", "pod-security.admission.config.k8s.io/v2", "pod-security.admission.config.k8s.io/V1", "pod-security.admission.config.k8s.io", "v1", "apiserver.config.k8s.io/v1", "pod-security.admission.config.k8s.io/v1 "})
 	}
 	kind := "PodSecurityConfiguration"
 	if r.Intn(100) < 5 {
@@ -295,6 +295,17 @@ func C17(seed int64, n int) (*cq.Set, *cq.Interner) {
 	for _, bad := range []string{"{", "[]", "42", `{"apiVersion": 3}`, `{"apiVersion":"pod-security.admission.config.k8s.io/v1","kind":"PodSecurityConfiguration","defaults":{"enforce":1}}`,
 		`{"apiVersion":"pod-security.admission.config.k8s.io/v1","kind":"PodSecurityConfiguration","exemptions":{"usernames":"a"}}`, "apiVersion: [\n"} {
 		add("malformed", lit("InMalformed"), []byte(bad), map[string]interface{}{"document": bad})
+	}
+	// the internal (unserved) version, alone and with content
+	for _, av := range []string{"pod-security.admission.config.k8s.io/__internal", "pod-security.admission.config.k8s.io/"} {
+		for _, extra := range [][]member{nil, {{Key: "defaults", Defs: [][2]string{{"enforce", "baseline"}}}}, {{Key: "exemptions"}}} {
+			ms := append([]member{{Key: "kind", Str: "PodSecurityConfiguration"}, {Key: "apiVersion", Str: av}}, extra...)
+			t := func() string { return docTerm(in, ms) }
+			js := renderJSON(ms)
+			add("json", t, []byte(js), map[string]interface{}{"document": js})
+			ys := renderYAML(ms)
+			add("yaml", t, []byte(ys), map[string]interface{}{"document": ys})
+		}
 	}
 	for i := 0; i < n; i++ {
 		ms := randDoc(r)
